@@ -126,6 +126,30 @@ Theorem C15_challenge_host_plain : forall h, contains c_colon h = false -> chall
 Proof. exact challenge_host_plain. Qed.
 Print Assumptions C15_challenge_host_plain.
 
+(** the Host forms of the property text, for every host [h] and port [p] ([plain]: no colon and
+    no bracket; [nobr]: no bracket): "h:p", "[h]" (an IPv6 literal without port — the form an
+    ACME server sends when validating an IPv6 identifier on port 80), "[h]:p" all denote [h] *)
+Theorem C15_challenge_host_port : forall h p, plain h -> plain p ->
+  challenge_host (h ++ c_colon :: p) = h.
+Proof. exact challenge_host_port. Qed.
+Print Assumptions C15_challenge_host_port.
+
+Theorem C15_challenge_host_bracket : forall h, nobr h -> contains c_colon h = true ->
+  challenge_host (c_lbr :: h ++ [c_rbr]) = h.
+Proof. exact challenge_host_bracket. Qed.
+Print Assumptions C15_challenge_host_bracket.
+
+Theorem C15_challenge_host_bracket_port : forall h p, nobr h -> plain p ->
+  challenge_host (c_lbr :: h ++ c_rbr :: c_colon :: p) = h.
+Proof. exact challenge_host_bracket_port. Qed.
+Print Assumptions C15_challenge_host_bracket_port.
+
+(** on ASCII (no folding pairs beyond letter case) "folds to" is equality up to letter case *)
+Theorem C15_equal_fold_ascii : forall a b,
+  equal_fold (tbl_feq []) a b = true <-> map ascii_lower a = map ascii_lower b.
+Proof. exact equal_fold_ascii. Qed.
+Print Assumptions C15_equal_fold_ascii.
+
 (** * Non-vacuity and worked instances *)
 Definition ex_sf := safe (tbl_lower []) (tbl_space []).
 Definition ex_feq := tbl_feq [].
